@@ -169,8 +169,16 @@ def run(prop):
                 if np_ is None or np_ > 5:
                     continue
                 p = R.write("fun_%s.sexp" % os.path.basename(f), st["S4"][1])
-                inputs.append((p, np_, "fun"))
+                if "/corpus/regress/" in f:
+                    inputs.insert(0, (p, np_, "regress"))
+                else:
+                    inputs.append((p, np_, "fun"))
         for path, nargs, kind in inputs:
+            if kind == "regress":
+                # minimised past failures may depend on the label numbers: replay them in a FRESH compiler
+                # process (label counter 0), as a user running the compiler on that file would
+                R.lad.h.close()
+                R.lad.h = common.harness()
             st = R.harness_axcut(path)
             if st is None:
                 found = True
